@@ -13,6 +13,9 @@
 //! cfg      = (L c00cfg (L request ...))          c00cfg: c00pipe keys + pkg, slow, echo, echon
 //! wire     = (L (N 0) (L (N 0) (L version status headers body)))   headers sorted, `last-modified` value masked
 //!          | (L (N 0) (L (N 3)))                 the HTTP/2 stream was reset without a response head
+//!          | (L (N 0) (L (N 5) (L version status headers body)))   HTTP/1.1: the response said `connection: close` and the
+//!                                                server ended the connection after it (a body without `content-length` is
+//!                                                everything up to that end)
 //!
 //! proto.l4     (L c00cfg (L request ...) mode)   -> (L err416 (L (L version status headers body sdclass) ...))
 //!              in-process `kvarn::handle_cache`: mode 0 = one fresh host, the requests in order; mode 1 = a fresh host each
@@ -362,8 +365,13 @@ fn expressible(r: &Req) -> bool {
 #[derive(Debug)]
 enum Wire {
     Resp { version: u8, status: u16, headers: Vec<(Vec<u8>, Vec<u8>)>, body: Vec<u8> },
+    /// HTTP/1.1 only: as `Resp`, and the server closed the connection after it (`connection: close`)
+    Closed { version: u8, status: u16, headers: Vec<(Vec<u8>, Vec<u8>)>, body: Vec<u8> },
     Refused,
 }
+/// After a response that says `connection: close` the server has to end the connection itself, at once: kvarn would
+/// otherwise only do so when its idle time-out (seconds) expires.  2.5 s is more than 2 s away from either.
+const CLOSE_WITHIN: Duration = Duration::from_millis(2500);
 fn canon_headers(mut h: Vec<(Vec<u8>, Vec<u8>)>) -> Vec<(Vec<u8>, Vec<u8>)> {
     for (n, v) in &mut h {
         n.make_ascii_lowercase();
@@ -381,6 +389,9 @@ fn x_wire(w: &Wire) -> X {
     match w {
         Wire::Resp { version, status, headers, body } => {
             X::ok(X::L(vec![X::N(0), X::L(vec![X::n(*version), X::n(*status), x_headers(headers), X::b(body)])]))
+        }
+        Wire::Closed { version, status, headers, body } => {
+            X::ok(X::L(vec![X::N(5), X::L(vec![X::n(*version), X::n(*status), x_headers(headers), X::b(body)])]))
         }
         Wire::Refused => X::ok(X::L(vec![X::N(3)])),
     }
@@ -552,13 +563,29 @@ impl H1 {
         self.s.write_all(&out).await.map_err(|e| format!("write: {e}"))?;
         self.s.flush().await.map_err(|e| format!("flush: {e}"))?;
         let w = self.read_response(r.method == b"HEAD").await?;
-        if body_after {
+        // (nothing can be written to a connection the server has ended)
+        if body_after && !matches!(w, Wire::Closed { .. }) {
             self.s.write_all(&r.body).await.map_err(|e| format!("write (body after the response): {e}"))?;
             self.s.flush().await.map_err(|e| format!("flush: {e}"))?;
         }
         Ok(w)
     }
-    /// reads one response with strict framing: status line, header lines, exactly `content-length` body bytes (none for HEAD)
+    /// the rest of the connection after a response that said `connection: close`: everything up to the end of the
+    /// connection, which the server has to bring about itself within `CLOSE_WITHIN` of its last byte
+    async fn read_to_close(&mut self, buf: &mut Vec<u8>) -> Result<(), String> {
+        let mut tmp = [0u8; 8192];
+        loop {
+            match tokio::time::timeout(CLOSE_WITHIN, self.s.read(&mut tmp)).await {
+                Ok(Ok(0)) => return Ok(()),
+                Ok(Ok(n)) => buf.extend_from_slice(&tmp[..n]),
+                // (a TLS peer that goes away without close_notify, a reset: the connection is gone all the same)
+                Ok(Err(_)) => return Ok(()),
+                Err(_) => return Err("the response said connection: close, but the server did not end the connection".into()),
+            }
+        }
+    }
+    /// reads one response with strict framing: status line, header lines, exactly `content-length` body bytes (none for HEAD);
+    /// after `connection: close` the end of the connection is awaited — a body without `content-length` is what comes before it
     async fn read_response(&mut self, head: bool) -> Result<Wire, String> {
         let mut buf = std::mem::take(&mut self.pending);
         let head_end = loop {
@@ -599,6 +626,21 @@ impl H1 {
                 return Err("unexpected transfer-encoding: chunked".into());
             }
             headers.push((name, v.to_vec()));
+        }
+        let closing = headers.iter().any(|(n, v)| n == b"connection" && v.eq_ignore_ascii_case(b"close"));
+        if closing {
+            // the body ends with the connection, or after `content-length` bytes with nothing but the end behind them
+            self.read_to_close(&mut buf).await?;
+            let body = if head { Vec::new() } else { buf[head_end..].to_vec() };
+            if head && buf.len() > head_end {
+                return Err(format!("{} bytes after the head of a HEAD answer", buf.len() - head_end));
+            }
+            if let Some(n) = clen {
+                if !head && n != body.len() {
+                    return Err(format!("content-length {n}, but {} bytes before the end of the connection", body.len()));
+                }
+            }
+            return Ok(Wire::Closed { version, status, headers: canon_headers(headers), body });
         }
         let want = if head { 0 } else { clen.ok_or("no content-length")? };
         while buf.len() < head_end + want {
@@ -803,9 +845,15 @@ async fn history_h1(desc: impl Into<Target>, secure: bool, reqs: &[Req]) -> Resu
     let mut h1 = H1::open(desc, secure).await.map_err(|e| (0, format!("h1 open: {e}")))?;
     let mut out = Vec::new();
     for (i, r) in reqs.iter().enumerate() {
+        if matches!(out.last(), Some(Wire::Closed { .. })) {
+            return Err((i, "h1: the connection ended with the answer to the request before".into()));
+        }
         out.push(h1.exchange(&resolve(r)).await.map_err(|e| (i, format!("h1: {e}")))?);
     }
-    h1.sentinel().await.map_err(|e| (reqs.len(), format!("h1 framing: {e}")))?;
+    // (after an answer that ended the connection there is nothing left to check: the end itself was the framing)
+    if !matches!(out.last(), Some(Wire::Closed { .. })) {
+        h1.sentinel().await.map_err(|e| (reqs.len(), format!("h1 framing: {e}")))?;
+    }
     Ok(out)
 }
 async fn history_h2(desc: impl Into<Target>, reqs: &[Req]) -> Result<Vec<Wire>, (usize, String)> {
@@ -860,7 +908,7 @@ fn pair_once(x: &X, flags: bool) -> X {
         if flags {
             let w2 = history_h2(db, &reqs).await;
             // answered = every request got a response head and body, and the connection's framing was intact afterwards
-            let all = |w: &Result<Vec<Wire>, (usize, String)>| matches!(w, Ok(v) if v.iter().all(|w| matches!(w, Wire::Resp { .. })));
+            let all = |w: &Result<Vec<Wire>, (usize, String)>| matches!(w, Ok(v) if v.iter().all(|w| matches!(w, Wire::Resp { .. } | Wire::Closed { .. })));
             // (a time-out or a connection that could not be opened says nothing about the server)
             for w in [&w1, &w2] {
                 if let Err((i, e)) = w {
@@ -947,7 +995,7 @@ async fn free_port() -> Option<PortClaim> {
 }
 /// the port of this run's server appears in `alt-svc`; the cases are written for port 8443
 fn canon_port(w: &mut Wire, port: u16) {
-    if let Wire::Resp { headers, .. } = w {
+    if let Wire::Resp { headers, .. } | Wire::Closed { headers, .. } = w {
         let mine = format!("h3=\":{port}\";ma=2592000").into_bytes();
         for (n, v) in headers.iter_mut() {
             if n == b"alt-svc" && *v == mine {
@@ -1098,7 +1146,9 @@ fn burst_once(x: &X, use_h2: bool, conns: usize) -> X {
                         return Ok::<Option<Wire>, String>(None);
                     }
                     let w = c.exchange(&r).await?;
-                    c.sentinel().await?;
+                    if !matches!(w, Wire::Closed { .. }) {
+                        c.sentinel().await?;
+                    }
                     Ok(Some(w))
                 });
                 tasks.push(Some(t));
@@ -1155,7 +1205,9 @@ fn alone_once(x: &X, use_h2: bool) -> X {
             } else {
                 let mut c = H1::open(desc, true).await?;
                 let w = c.exchange(&r).await?;
-                c.sentinel().await?;
+                if !matches!(w, Wire::Closed { .. }) {
+                    c.sentinel().await?;
+                }
                 Ok(w)
             }
         });
@@ -1326,7 +1378,8 @@ fn body(x: &X) -> X {
     out
 }
 
-/// "proto.sbody": `extensions::stream_body()` on a file, in process: (L file (L [(L start end)])) -> (L) for 416 | (L (L bytes len))
+/// "proto.sbody": `extensions::stream_body()` on a file, in process: (L file (L [(L start end)])) -> (L) for 416 |
+/// (L (L bytes len status (L [content-range])))
 fn sbody(x: &X) -> X {
     let Some([file, range]) = x.as_l() else { return X::bad() };
     let (Some(file), Some(range)) = (file.as_b(), range.as_l()) else { return X::bad() };
@@ -1351,10 +1404,11 @@ fn sbody(x: &X) -> X {
     let Some(mut req) = c00pipe::make_request("localhost:8443", b"GET", b"/sf/f.bin", &hdrs, b"") else { return X::L(vec![X::N(96)]) };
     let out = rt().block_on(async {
         let reply = kvarn::handle_cache(&mut req, c00pipe::sockaddr(1), host).await;
+        let content_range: Vec<X> = reply.response.headers().get_all("content-range").iter().map(|v| X::b(v.as_bytes())).collect();
         match (reply.response.status().as_u16(), reply.future) {
             (416, None) => X::L(vec![]),
-            (200, Some((fut, Some(len)))) => match run_future(fut, host).await {
-                Some(written) => X::L(vec![X::L(vec![X::b(&written), X::n(len)])]),
+            (st @ (200 | 206), Some((fut, Some(len)))) if content_range.len() <= 1 => match run_future(fut, host).await {
+                Some(written) => X::L(vec![X::L(vec![X::b(&written), X::n(len), X::n(st), X::L(content_range)])]),
                 None => X::L(vec![X::N(96), X::b("the stream future could not be observed")]),
             },
             (st, _) => X::L(vec![X::N(95), X::n(st)]),
